@@ -4,10 +4,11 @@ import json, os, subprocess, sys
 HERE = os.path.dirname(os.path.dirname(os.path.abspath(__file__)))
 bad = 0
 rows = []
-for d in sorted(os.listdir(f"{HERE}/refactors")):
+from concurrent.futures import ThreadPoolExecutor
+
+
+def one(d):
     p = f"{HERE}/refactors/{d}"
-    if not os.path.isfile(f"{p}/patch.diff"):
-        continue
     r = subprocess.run(f"/venv/bin/python {HERE}/tools/try_refactor.py {p} --all", shell=True, capture_output=True, text=True)
     try:
         out = json.loads(r.stdout[r.stdout.index("{"):])
@@ -15,10 +16,15 @@ for d in sorted(os.listdir(f"{HERE}/refactors")):
     except Exception:
         fa = {"?": {"reported": [r.stdout[-200:]]}}
     meta = json.load(open(f"{p}/meta.json"))
-    first = meta.get("verified_here", {}).get("false_alarms_first_seen", {})
-    rows.append((d, meta.get("kind", ""), meta.get("where", ""), sorted(first), sorted(fa)))
-    print(d, "silent" if not fa else f"FALSE ALARM {sorted(fa)}")
-    bad += bool(fa)
+    first = meta.get("verified_here", {}).get("false_alarms_first_seen", {}) or meta.get("first_run", {}).get("alarms", {})
+    print(d, "silent" if not fa else f"FALSE ALARM {sorted(fa)}", flush=True)
+    return (d, meta.get("kind", ""), meta.get("where", ""), sorted(first), sorted(fa))
+
+
+dirs = [d for d in sorted(os.listdir(f"{HERE}/refactors")) if os.path.isfile(f"{HERE}/refactors/{d}/patch.diff")]
+with ThreadPoolExecutor(int(os.environ.get("HS_REFAC_JOBS", "3"))) as ex:
+    rows = list(ex.map(one, dirs))
+bad = sum(1 for r_ in rows if r_[4])
 with open(f"{HERE}/refactors/RESULTS.md", "w") as fh:
     fh.write("# Behaviour-preserving refactorings: every check must stay silent\n\nWritten by sub-agents given only the property text and a scratch worktree; each keeps the 3002 tests green. "
              "`first run` lists the checks that raised a false alarm when the refactoring was first tried (each was corrected in the rule pack / normaliser).\n\n| id | kind | where | first run | now |\n|---|---|---|---|---|\n")
